@@ -317,6 +317,18 @@ findTypeLoop:
 			case *Gpos1_1, *Gpos1_2, *Gpos2_1, *Gpos2_2, *Gpos3_1, *Gpos4_1, *Gpos5_1, *Gpos6_1:
 				extLookupType = gposExtensionLookupType
 				break findTypeLoop
+			case *SeqContext1, *SeqContext2, *SeqContext3,
+				*ChainedSeqContext1, *ChainedSeqContext2, *ChainedSeqContext3:
+				// The contextual subtables are shared between GSUB and GPOS,
+				// but the lookup types differ.
+				switch l.Meta.LookupType {
+				case 5, 6:
+					extLookupType = gsubExtensionLookupType
+					break findTypeLoop
+				case 7, 8:
+					extLookupType = gposExtensionLookupType
+					break findTypeLoop
+				}
 			}
 		}
 	}
